@@ -4,9 +4,26 @@
 import json, sys
 props = {json.loads(l)["id"]: json.loads(l) for l in open("/verif/properties.jsonl")}
 pid = sys.argv[1]
+rnd = int(sys.argv[2]) if len(sys.argv) > 2 else 1
 p = props[pid]
 wt = f"/tmp/seed/{pid}"
-print(f"""You are working in a scratch git worktree of the Twisted repository (Python networking framework) at {wt} (package source under {wt}/src/twisted, tests in the `test/` sub-packages). Work ONLY inside {wt} and {wt}-out. Never touch /repo and never read or write anything under /verif. No network is available.
+out = f"{wt}-out" if rnd == 1 else f"{wt}-out{rnd}"
+names = ("A", "B") if rnd == 1 else (("C", "D") if rnd == 2 else ("E", "F"))
+avoid = ""
+if rnd > 1:
+    import glob, os
+    prev = []
+    for d in sorted(glob.glob(f"/verif/seeded/{pid}[a-z]")):
+        try:
+            m = json.load(open(os.path.join(d, "meta.json")))
+            files = ", ".join(m.get("files", []))
+            prev.append(f"  - ({files}) {m.get('summary', '')}"[:700])
+        except Exception:
+            pass
+    if prev:
+        avoid = ("\nALREADY DONE BY OTHERS (do not repeat these, and do not produce close variants of them - pick different functions, "
+                 "different mechanisms, different clauses of the property):\n" + "\n".join(prev) + "\n")
+print(f"""You are working in a scratch git worktree of the Twisted repository (Python networking framework) at {wt} (package source under {wt}/src/twisted, tests in the `test/` sub-packages). Work ONLY inside {wt} and {out}. Never touch /repo and never read or write anything under /verif. No network is available.
 
 Run code against this worktree with:  cd {wt} && PYTHONPATH={wt}/src /venv/bin/python your_script.py
 Run tests with:  cd {wt} && PYTHONPATH={wt}/src /venv/bin/python -m pytest -q -p no:cacheprovider -n 4 --timeout=600 src/twisted/<path to test module(s)>
@@ -17,17 +34,18 @@ Quantified over: {p['quantifier']['text']}
 Why the existing tests cannot settle it: {p['why_tests_cant']}
 Main source files: {', '.join(p['anchors']['files'])}
 
-TASK. Produce TWO independent changes (call them A and B) to the Twisted *source* (not to tests), each of which BREAKS this property while:
+{avoid}
+TASK. Produce TWO independent changes (call them {names[0]} and {names[1]}) to the Twisted *source* (not to tests), each of which BREAKS this property while:
  1. the edited files still compile and `import twisted` plus the edited modules still import;
  2. the existing test suite still passes — run at least every test module that exercises the files you changed (and anything that imports them heavily) and list exactly what you ran; if a test fails, pick a different change;
  3. the breakage needs something specific to manifest: a particular interleaving or schedule, a failure/crash at a particular point, a multi-step sequence of operations, an unusual input or boundary value, or two cooperating sites that each look fine alone. NOT something ordinary use would expose at once;
  4. it is realistic: the kind of regression a plausible refactor, optimisation, clean-up or well-meant bug-fix could introduce (small diff, natural-looking code, no comments announcing the bug).
-Make A and B attack different clauses / mechanisms of the property (e.g. an ordering clause vs an exactly-once clause vs a boundary vs an error path).
+Make {names[0]} and {names[1]} attack different clauses / mechanisms of the property (e.g. an ordering clause vs an exactly-once clause vs a boundary vs an error path).
 
 For each change write a standalone demonstration `demo.py` (plain Python using twisted; deterministic; no network, use in-memory transports / task.Clock / proto_helpers where needed) that exits 0 when the property holds and exits non-zero with a clear assertion message when it is broken. It MUST pass on the unmodified worktree and fail with the change applied — verify both yourself.
 
-DELIVERABLES: {wt}-out/A/ and {wt}-out/B/, each containing
+DELIVERABLES: {out}/{names[0]}/ and {out}/{names[1]}/, each containing
   patch.diff  (output of `git diff` in the worktree with only that change applied; must apply with `git apply` to a clean checkout)
   demo.py
   meta.json   {{"property": "{pid}", "summary": "<what was changed>", "breaks": "<which part of the statement fails and how>", "needs": "<what it needs in order to manifest>", "files": ["src/twisted/..."], "tests": ["src/twisted/.../test_x.py", ...], "ran": ["<commands you ran and their outcome>"]}}
-Do NOT use `git stash` (the stash is shared between worktrees; use `git diff > file; git checkout -- .; git apply file` instead). When finished leave the worktree clean (`git checkout -- .`, remove stray files). Final answer: for A and B, two or three sentences each on what the change is and why tests miss it, plus the test results you observed.""")
+Do NOT use `git stash` (the stash is shared between worktrees; use `git diff > file; git checkout -- .; git apply file` instead). When finished leave the worktree clean (`git checkout -- .`, remove stray files). Final answer: for {names[0]} and {names[1]}, two or three sentences each on what the change is and why tests miss it, plus the test results you observed.""")
